@@ -60,6 +60,10 @@ type ScriptPlan struct {
 	GreaseNamesBadKey bool `json:"grease_names_bad_key,omitempty"`
 	// AlertWriteFails (refused hellos): writes to the client fail.
 	AlertWriteFails bool `json:"alert_write_fails,omitempty"`
+	// SharedOption: the process builds its option list once and uses it for all
+	// its connections; before the connection under test it has served a valid
+	// hello (same keys, same target, the config's first suite) with it.
+	SharedOption bool `json:"shared_option,omitempty"`
 	// CtxEndsAtAlert (refused hellos): the NewConn context is cancelled at the
 	// moment the front starts writing to the client (the verdict is in by then).
 	CtxEndsAtAlert bool `json:"ctx_ends_at_alert,omitempty"`
@@ -810,6 +814,8 @@ var (
 	// scriptCtxEndsAtWrite: NewConn's context is cancelled as the transport's
 	// first Write begins.
 	scriptCtxEndsAtWrite bool
+	// scriptOpts: the option list to use instead of a fresh keyOptions(keys).
+	scriptOpts []ech.Option
 )
 
 func runScriptW(keys []ech.Key, in []byte, chunks []int, readBuf int, afterNewConn []byte) (*scriptOutcome, *simnet.ScriptConn) {
@@ -839,7 +845,11 @@ func runScriptW(keys []ech.Key, in []byte, chunks []int, readBuf int, afterNewCo
 	var conn *ech.Conn
 	panicked, msg, site := core.Guard(func() {
 		var err error
-		conn, err = ech.NewConn(ctx, sc, keyOptions(keys)...)
+		opts := scriptOpts
+		if opts == nil {
+			opts = keyOptions(keys)
+		}
+		conn, err = ech.NewConn(ctx, sc, opts...)
 		o.err = err
 		if err != nil {
 			return
@@ -990,6 +1000,21 @@ func executeScript(t *testing.T, prop string, seed uint64, p *ScriptPlan) *core.
 				runScriptW(ob.keys, oin, nil, 0, nil)
 				res.Probe("another_connection_in_between")
 			}
+		}
+	}
+	if p.SharedOption && len(b.keys) > 0 {
+		vp := *p
+		vp.Prime, vp.Mutations, vp.Trailer, vp.Chunks, vp.Interleave, vp.SharedOption = nil, nil, nil, nil, 0, false
+		vp.Expect, vp.SuiteIdx, vp.NoECH, vp.Grease = "accept", 0, false, false
+		if vb, verr := buildScript(core.Mix(seed, "shared"), &vp); verr == nil && len(vb.keys) == len(b.keys) {
+			scriptOpts = keyOptions(b.keys)
+			defer func() { scriptOpts = nil }()
+			vo, _ := runScriptW(b.keys, append(append([]byte(nil), vb.outerRec...), echbox.Record(23, 0x0303, []byte("earlier connection"))...), nil, 0, nil)
+			if vo.err != nil || !vo.accepted {
+				res.Fail(prop, "rejected-valid", "earlier connection of the process (same option list, valid hello) not accepted", "err=%v", vo.err)
+				return res
+			}
+			res.Probe("earlier_connection_same_option_list")
 		}
 	}
 	scriptErrWithData = p.ErrWithData
